@@ -116,7 +116,7 @@ impl World {
             // appearance draws (only in runs with features, so that the other runs keep their random streams)
             let features = self.features;
             let (fr, fs, fq) = if features.is_some() {
-                (self.rng.gen_bool(0.85), self.rng.gen_range(0..6usize), self.rng.gen_range(0..QUALITIES.len()))
+                (self.rng.gen_bool(0.85), self.rng.gen_range(0..6usize), self.rng.gen_range(0..QUALITIES.len() + 2))
             } else {
                 (false, 0, 0)
             };
@@ -149,7 +149,8 @@ impl World {
                 Some(cosine) if fam > 0 && fr => {
                     let syms = family_symbols(fam);
                     let sym = syms[fs % syms.len()];
-                    (Some(vis_symbols(cosine)[sym - 1].clone()), Some(QUALITIES[fq]))
+                    // now and then a feature comes without a quality: the documented default is 1.0
+                    (Some(vis_symbols(cosine)[sym - 1].clone()), if fq < QUALITIES.len() { Some(QUALITIES[fq]) } else { None })
                 }
                 _ => (None, None),
             };
